@@ -53,6 +53,14 @@ claimed = {
    text="Bounded-exhaustive input exploration: every string up to length L over a 17-symbol JSON token alphabet, every byte string up to length 2/3 as protobuf, and every single mutation of valid bodies, against every generated decoder family of the Go server (millions of requests per run through the byte-level wire), with a reference decoder (protojson / proto.Unmarshal / JSON well-formedness + member accounting) as oracle; plus the full product status x content-type x body class against the generated Go client.",
    note="Bodies beyond length L or two mutations away are not covered; an empty body may be dispatched as the default message; duplicate keys are not judged; hangs are excluded by construction (no blocking calls; every execution is bounded by input length).",
    tech="bounded-exhaustive enumeration of input strings and mutations against reference decoders", ref="DESIGN.md section 8 C11"),
+ "C18": dict(
+   text="Every service spec of the universe (incl. same-named nested types, recursion, multi-file, YAML look-alike strings) x 4 format spellings is generated by the real plugin; each document is decoded and checked exhaustively against the structural rules of OAS 3.1 (refs, path variables vs parameters, uniqueness, reachability closure computed independently from the descriptors, one document per service), every component and parameter schema against the 2020-12 metaschema, and YAML vs JSON renderings as JSON values. Exhaustive over the bounded schema x format space.",
+   note="Trusted: go.yaml.in/yaml/v4 decoder + YAML 1.2 core schema interpretation, python jsonschema 4.26 metaschema check, own reachability traversal.",
+   tech="exhaustive enumeration of schemas x formats with structural and metaschema oracles", ref="DESIGN.md section 8 C18"),
+ "C19": dict(
+   text="Exhaustive boundary exploration of rule semantics vs published constraints: every supported rule kind x every field kind x a set of bound values, probed at and around every bound (integers +-1/+-2, floats +-1 ulp, rune-width variants for lengths, set members/non-members, item counts); for each probe the reference rule semantics (protovalidate stand-in on dynamic messages) must agree with python jsonschema on the M-json form against the emitted property schema. The space of (rule, kind, bound, probe) is finite and fully enumerated.",
+   note="Trusted: M-rules (stand-in, standard rules only, no CEL), python jsonschema 4.26 without format assertion. NaN/Infinity probes and rules outside the statement's list (prefix, bytes length) are excluded.",
+   tech="exhaustive boundary-value enumeration, equivalence of two executable semantics", ref="DESIGN.md section 8 C19"),
 }
 NA_REASON = "check not built yet (build in progress; see DESIGN.md section 14)"
 checks = []
